@@ -425,7 +425,10 @@ func (gen *generator) irIFunc(new *ir.IFunc, old *ast.IndirectSymbolDef) error {
 	}
 	// Content type: handled in newGlobalEntity.
 	// Resolver.
-	resolver, err := gen.irIndirectSymbol(new.Typ, old.IndirectSymbol())
+	// The resolver of an IFunc with content type T has type `T* ()*`.
+	resolverType := types.NewPointer(types.NewFunc(types.NewPointer(new.Typ.ElemType)))
+	resolverType.AddrSpace = new.Typ.AddrSpace
+	resolver, err := gen.irIndirectSymbol(resolverType, old.IndirectSymbol())
 	if err != nil {
 		return errors.WithStack(err)
 	}
